@@ -1,9 +1,9 @@
 SPECIFICATION Spec
 CONSTANTS
-  Clients <- MC2Clients
-  Reqs <- MC2ReqsB
+  Clients <- MC1Clients
+  Reqs <- MC1Reqs
   Bg = "none"
-  Pool <- NoPool
+  Pool <- MCPool2
   Handoff = TRUE
 INVARIANT RecvMutex
 INVARIANT CondMutex
